@@ -46,8 +46,12 @@ GEN = {
     'g_define': '\tcpu 8080\n\tifdef MODE\n\tdb MODE\n\telse\n\tdb 0\n\tendif\n',
     # more INCLUDE statements (250 per pass, two passes) than the nesting limit allows levels: sequential includes are not nested
     'g_manyinc': '\tcpu 8080\n\tjmp fwd\n' + '\tinclude "g_manyinc.inc"\n' * 250 + 'fwd:\tnop\n',
+    # a #define that follows a use of its token, in a program that needs a second pass
+    'g_defpass': '\tcpu 6502\n\torg $1000\nstart:\tnop\n\tjmp later\n#define nop brk\n\tnop\nlater:\trts\n',
+    # a macro library found only through -i, then a macro call carrying a label the macro does not consume
+    'g_pmac': '\tcpu 6502\n\torg $8000\n\tinclude "macros.inc"\nreset:\tinitsp $ff\n\tifexist "nosuchfile.inc"\n\tnop\n\tendif\nagain:\tinitsp $fe\n\trts\n',
 }
-GENFILES = {'g_manyinc': {'g_manyinc.inc': '\tnop\n'}}
+GENFILES = {'g_manyinc': {'g_manyinc.inc': '\tnop\n'}, 'g_pmac': {'lib/macros.inc': 'initsp\tmacro val\n\tldx #val\n\ttxs\n\tendm\n'}}
 
 
 def sources():
@@ -105,6 +109,8 @@ def setup(t, sub='src'):
 
 
 def flags_of(t):
+    if t == 'g_pmac':
+        return ['-i', os.path.join(core.workdir(), 'src', 'lib')]
     return corpus.flags(t) if t not in GEN else (['-D', 'MODE=2'] if t == 'g_define' else [])
 
 
